@@ -52,7 +52,7 @@ MID = [
     "</p><p><i>Bar</i> again.",
     " (<em>Bar,</em> dissenting).",
     " In <i>Li</i> we held.",
-    " We dis\u00adagree.\n   Bar at 7 says so.",
+    " We dis\u00ad\n        agree with that reading.\n   Bar at 7 says so.",  # a soft hyphen at a line end, as hyphenating tools write it
     " We dis&shy;agree. See Bar at 9 and\u200b <i>Bar</i> too.",
     # a second case whose parenthetical mentions the first one in a style tag, directly followed by a supra / short form
     " Doe v. Roe, 2 U.S. 2 (1991) (citing <em>Bar</em>, supra, at 5).",
